@@ -448,7 +448,10 @@ namespace Pistache::Http
             // This is the first time we are reading the payload
             else
             {
-                message->body_.reserve(contentLength);
+                // Content-Length comes from the peer: reserve for what has arrived
+                // only, the rest grows as the body comes in (and is bounded by
+                // the maximum request size)
+                message->body_.reserve(std::min<uint64_t>(contentLength, cursor.remaining()));
                 if (!readBody(contentLength))
                     return State::Again;
             }
@@ -503,9 +506,10 @@ namespace Pistache::Http
                 return Final;
             }
 
-            message->body_.reserve(size);
             StreamCursor::Token chunkData(cursor);
             const ssize_t available = cursor.remaining();
+            // the chunk size comes from the peer: reserve for what has arrived only
+            message->body_.reserve(message->body_.size() + std::min(available, size - alreadyAppendedChunkBytes));
 
             if (available + alreadyAppendedChunkBytes < size + 2)
             {
